@@ -471,6 +471,11 @@ func (c *VCtx) atomicHook(fr *Frame, st *State, l *Loc, pre bool) {
 		if local {
 			return
 		}
+		if len(st.held) > 0 && c.contract != nil && len(c.contract.Props) == 1 && c.contract.Props[0] == "C13" {
+			// a function under contract for the lock discipline only: an atomic operation inside a critical
+			// section is race-free by itself; nothing functional is claimed about the section
+			return
+		}
 		if len(st.held) > 0 {
 			c.staticObl("atomic.incs", "atomic operation inside a critical section is on a cell local to this call", false,
 				"atomic operation on a shared cell while holding "+heldNames(st)+" (critical sections could not be treated as atomic)")
